@@ -403,6 +403,9 @@ class DefaultDomain:
         return ("const", v) if isinstance(v, (str, int)) else NOTNONE
 
 
+GUESSED = []   # branches taken both ways because their condition evaluated to "the analysis does not know", since the last verdict
+
+
 class Interp:
     def __init__(self, domain, max_depth=8, max_states=20000):
         self.domain = domain
@@ -1048,6 +1051,8 @@ class Interp:
             t = self.domain.compare(op, l, rr)
             if t is None:
                 t = self._default_compare(op, l, rr)
+            if t not in ("T", "F") and (l == TOP or rr == TOP) and len(GUESSED) < 8:
+                GUESSED.append(f"`{norm(e)[:70]}` at line {getattr(e, 'lineno', '?')} of {fr.name} (an operand is unknown to the analysis)")
             out.append(val({"T": TRUE, "F": FALSE}.get(t, ("bool",)), r.state))
         return out
 
@@ -1134,6 +1139,10 @@ class Interp:
                         out.append((False, a.state))
                 continue
             t = self.domain.truth(r.value)
+            if t == "TF" and r.value == TOP and len(GUESSED) < 8:
+                # neither the code nor the scenario's environment says which way this goes: the analysis does not know.  Both ways
+                # are followed; a rule that then finds a problem must not call it a violation (ttsa.report.Context.check).
+                GUESSED.append(f"`{norm(test)[:70]}` at line {getattr(test, 'lineno', '?')} of {fr.name}")
             if t == "TF" and os.environ.get("TTSA_TRACE_FORKS"):
                 print("FORK", fr.name, getattr(test, "lineno", "?"), norm(test)[:80], "value", str(r.value)[:160], "operands", [str(x.value)[:100] for n_ in ast.walk(test) if isinstance(n_, ast.Name) for x in self.eval(n_, r.state, fr)],
                       "parts", [str(x.value)[:200] for n_ in (list(getattr(test, "comparators", [])) + ([test.operand] if isinstance(test, ast.UnaryOp) else [])) for x in self.eval(n_, r.state, fr)][:3] if os.environ.get("TTSA_TRACE_FORKS") == "2" else "")
@@ -1308,6 +1317,15 @@ class Interp:
                     r = hook(bases[0].value, target.attr, value, bases[0].state, fr)
                     if r is not None:
                         return r
+            if hook is not None and not ch and not any(isinstance(n_, (ast.Call, ast.NamedExpr)) for n_ in ast.walk(target.value)):
+                # <expression>.name = v (xs[i].name = v ...): the object the expression evaluates to gets the attribute
+                bases = self.eval(target.value, st, fr)
+                if len(bases) == 1 and bases[0].kind == "val":
+                    r = hook(bases[0].value if not is_handle(bases[0].value) else bases[0].value, target.attr, value, bases[0].state, fr)
+                    if r is not None:
+                        return r
+            if getattr(self.domain, "strict_calls", False) and len(GUESSED) < 8 and not target.attr.startswith("__"):
+                GUESSED.append(f"the assignment `{norm(target)[:60]} = ...` at line {getattr(target, 'lineno', '?')} of {fr.name} (the analysis cannot tell which object it changes)")
             return st
         if isinstance(target, (ast.Tuple, ast.List)):
             if is_handle(value):
